@@ -305,9 +305,40 @@ def _negated_size(e) -> bool:
     return bool(terms) and const <= 0 and all(k < 0 and t[0] == "size" for t, k in terms.items())
 
 
+def concrete_positions(it) -> Optional[list]:
+    """the integers held by a ('fancy', v) index item when v is a 1-d array / list of known integers"""
+    if it[0] != "fancy":
+        return None
+    a = it[1] if isinstance(it[1], Arr) else to_arr(it[1])
+    if not (isinstance(a, Arr) and a.ndim == 1 and a.axes[0][0].concrete is not None):
+        return None
+    sp, iv = a.axes[0]
+    out = []
+    for k in range(sp.concrete):
+        e = sym.subst_ivar(a.elem, iv, k)
+        if e[0] != "num" or not float(e[1]).is_integer():
+            return None
+        out.append(int(e[1]))
+    return out
+
+
 def index(v: Val, idx: list, interp=None) -> Val:
     """idx: list of index items: ('full',) | ('slice', lo, hi, step) with Expr|None bounds | ('int', k) |
     ('expr', Expr) scalar symbolic | ('new',) | ('mask', Arr) | ('fancy', Val) | ('ellipsis',)"""
+    if isinstance(v, Arr) and len(idx) == v.ndim >= 2 and all(it[0] == "fancy" for it in idx):
+        # A[rows, cols] with index arrays of known integers: entry t is A[rows[t], cols[t]]
+        poss = [concrete_positions(it) for it in idx]
+        if all(p is not None for p in poss) and len({len(p) for p in poss}) == 1 and poss[0]:
+            cells = []
+            for t in range(len(poss[0])):
+                c = index(v, [("int", p[t]) for p in poss], interp)
+                if not isinstance(c, Sc) or c.e is None:
+                    cells = None
+                    break
+                cells.append(c.e)
+            if cells is not None:
+                tv = fresh()
+                return Arr([(fix(len(cells)), tv)], sym.Sel(tv, tuple(cells)), "nd")
     if isinstance(v, Alt):
         return Alt([index(x, idx, interp) for x in v.vals])
     if isinstance(v, Seq):
